@@ -739,10 +739,11 @@ def _hist(xs):
 
 def run_histories(ctx, regspecs, dist, samples):
     quick = ctx.tier == 'quick'
-    n = 80 if quick else 1200
+    n = 70 if quick else 1200
     rng = ctx.stream_rngs['hist']
+    ndes = 14 if quick else 250
     specs = ([s for s in regspecs if spec_kind(s) == 'hist'] + hist.directed_specs()
-             + [hist.gen_hist(rng, 4) for _ in range(n)])
+             + [hist.gen_hist_des(rng) for _ in range(ndes)] + [hist.gen_hist(rng, 4) for _ in range(n)])
     kept, verdicts, infos, stats = run_stream(ctx, 'hist', specs, 'hist')
     ctx.coverage.setdefault('case_status', {})['hist'] = stats
     ctx.coverage['hist_evaluations'] = len(kept)
@@ -760,6 +761,7 @@ def run_histories(ctx, regspecs, dist, samples):
         'ncomp_hist': _hist([i['ncomp'] for i in infos]),
         'steps_applied': dict(sorted(steps_ok.items())), 'steps_refused': dict(sorted(steps_failed.items())),
         'with_des': sum(1 for i in infos if i['n_des']),
+        'des_with_two_or_more_shifts': sum(1 for i in infos if i['n_des'] and len(i['applied']) >= 3),
         'stale_rate_names_outside_$MODEL (treated as ordinary variables)': sum(1 for i in infos if i.get('stale_k')), 'reread_failed': sum(1 for i in infos if 'reread_exc' in i),
         'explained(28 missing K,30 no $DES)': hist_counts(verdicts, 28, 31), 'explained(44 trans not written,46 ratio denom one)': hist_counts(verdicts, 44, 48),
         'inconclusive': hist_counts(verdicts, 1000, 2000),
